@@ -89,15 +89,12 @@ def module_descs(draw, with_apps=True, max_depth=3, sym_pool=('a', 'b', 'c', 'A'
                 if 'equiv' not in repr(f):
                     claims.append({'kind': 'taut', 'f': tolist(f)})
     if rich and draw(st.integers(0, 4)) == 0:
-        # two notation-like Instantiate patterns over the same body with the same argument bound to different metavariables
-        body = ['i', ['m', 0, [], [], [], [], []], ['a', ['m', 1, [], [], [], [], []], ['m', 2, [], [], [], [], []]]]
+        # claims stated as *partial* applications of a schema (Instantiate objects whose keys are not 0..n-1): the same
+        # argument bound to different metavariables gives different patterns; one of them is reused so that it gets memoised
         val = gens.sugared_to_json(draw_axiom(draw, cfg, 1))
-        k1, k2 = draw(st.lists(st.sampled_from([0, 1, 2]), min_size=2, max_size=2, unique=True))
-        twins = [['inst', body, [[k1, val]]], ['inst', body, [[k2, val]]]]
-        base = len(root['axioms'])
-        root['axioms'] += twins + [twins[0]]
-        all_claims = [{'kind': 'axiom', 'module': root['name'], 'index': base}, {'kind': 'axiom', 'module': root['name'], 'index': base + 1}]
-        claims = all_claims + claims if draw(st.booleans()) else claims + all_claims
+        k1, k2 = draw(st.lists(st.sampled_from([0, 1]), min_size=2, max_size=2, unique=True))
+        extra = [{'kind': 'pnc', 'k': k2, 'v': val, 'nested': False}, {'kind': 'pnc', 'k': k1, 'v': val, 'nested': False}, {'kind': 'pnc', 'k': k1, 'v': val, 'nested': True}]
+        claims = extra + claims if draw(st.booleans()) else claims + extra
     root['claims'] = claims
     root['use_prop'] = any(c['kind'] != 'axiom' for c in claims)
     return root
@@ -151,7 +148,7 @@ def build_module(desc):
     root = built.by_name[desc['name']]
     apps = [S.App.from_json(c['app']) for c in desc.get('claims', []) if c['kind'] in ('app', 'univgen')]
     prop = taut = None
-    if apps or any(c['kind'] in ('taut', 'quant', 'dyninst') for c in desc.get('claims', [])):
+    if apps or any(c['kind'] in ('taut', 'quant', 'dyninst', 'pnc') for c in desc.get('claims', [])):
         need_taut = any(c['kind'] == 'taut' for c in desc.get('claims', [])) or any(n in {e.name for e in S.catalogue() if e.module == 'taut'} for a in apps for n in a.entries())
         if need_taut:
             taut = root.import_module(Tautology()); prop = taut
@@ -162,7 +159,21 @@ def build_module(desc):
     claims, thunks = [], []
     it = iter(apps)
     for c in desc.get('claims', []):
-        if c['kind'] == 'axiom':
+        explicit = None
+        if c['kind'] == 'pnc':
+            import proof_generation.pattern as P
+            from frozendict import frozendict
+
+            body = P.Implies(P.MetaVar(0), P.Implies(P.MetaVar(1), P.MetaVar(0)))
+            v = gens.build_repo(gens.sugared_from_json(c['v'], by_label))
+            part = P.Instantiate(body, frozendict({c['k']: v}))
+            if c['nested']:
+                explicit = P.Implies(part, P.Implies(P.MetaVar(1), part))
+                th = prop.prop1_inst(part, P.MetaVar(1))
+            else:
+                explicit = part
+                th = prop.prop1_inst(v, P.MetaVar(1)) if c['k'] == 0 else prop.prop1_inst(P.MetaVar(0), v)
+        elif c['kind'] == 'axiom':
             m = built.by_name[c['module']]
             pat = m._axioms[c['index']]
             th = m.load_axiom(pat)
@@ -186,9 +197,10 @@ def build_module(desc):
             if res is None or not res[0]:
                 continue
             th = res[1]
-        if any(th.conc == x for x in claims):
+        stated = explicit if explicit is not None else th.conc
+        if any(stated == x for x in claims):
             continue   # add_claim asserts distinctness
-        claims.append(th.conc); thunks.append(th)
+        claims.append(stated); thunks.append(th)
     root._claims = claims
     root._proof_expressions = thunks
 
